@@ -127,6 +127,8 @@ func c12Enforce(c *ctx) {
 			return
 		}
 	}
+	time.Sleep(300 * time.Millisecond)
+	echoBase := echoConns.Load() // the readiness probes above were admitted connections of the harness itself
 	n := c.scale(c.pick(2500, 50000))
 	var seq, admittedTCP atomic.Int64
 	var wg sync.WaitGroup
@@ -274,8 +276,8 @@ func c12Enforce(c *ctx) {
 	c.R.SetCounter("tcp_upstream_connections", echoConns.Load())
 	c.R.SetCounter("tcp_admitted_connections", admittedTCP.Load())
 	// conservation: every upstream connection belongs to an admitted client connection
-	if echoConns.Load() > admittedTCP.Load() {
-		c.R.Violate("c12e:tcp-upstream-contacted-for-refused-peer", fmt.Sprintf("the TCP upstream accepted %d connections but only %d client connections were admitted by the rules", echoConns.Load(), admittedTCP.Load()), nil)
+	if echoConns.Load()-echoBase > admittedTCP.Load() {
+		c.R.Violate("c12e:tcp-upstream-contacted-for-refused-peer", fmt.Sprintf("the TCP upstream accepted %d connections but only %d client connections were admitted by the rules", echoConns.Load()-echoBase, admittedTCP.Load()), nil)
 	}
 }
 
